@@ -666,7 +666,7 @@ def pubkeyhash_to_addr_base58(pubkeyhash, prefix=b'\x00'):
 
     :return str: Base-58 encoded address
     """
-    key = to_bytes(prefix) + to_bytes(pubkeyhash)
+    key = to_bytes(prefix) + to_bytes_binary(pubkeyhash)
     addr256 = key + double_sha256(key)[:4]
     return base58encode(addr256)
 
@@ -696,7 +696,7 @@ def pubkeyhash_to_addr_bech32(pubkeyhash, prefix='bc', witver=0, separator='1', 
     :return str: Bech32 encoded address
     """
 
-    pubkeyhash = list(to_bytes(pubkeyhash))
+    pubkeyhash = list(to_bytes_binary(pubkeyhash))
 
     # To simplify and speedup: assume pubkeyhash of size 20, 32 and 40 does not contain witness version and size byte
     if len(pubkeyhash) not in [20, 32, 40]:
@@ -819,6 +819,21 @@ def to_bytes(string, unhexlify=True):
         return string
     else:
         return bytes(string, 'utf8')
+
+
+def to_bytes_binary(data):
+    """
+    Convert argument to bytes like :func:`to_bytes`, but never unhexlify a bytes argument: binary data such as a
+    public key hash which happens to consist of ASCII hexadecimal characters must be left untouched.
+
+    :param data: Hexadecimal string or bytes
+    :type data: str, bytes
+
+    :return: Bytes var
+    """
+    if isinstance(data, (bytes, bytearray)):
+        return bytes(data)
+    return to_bytes(data)
 
 
 def to_hexstring(string):
